@@ -173,12 +173,23 @@ func runReentrant(rc *RunCtx) {
 	re.nestKind = []int{0, 0, 0, 0, 1, 2, 3, 4, 5, 6, 7, 2, 1}[tp.Choose(13, "nested-call")]
 	desc.Reentry = append(desc.Reentry, "nested call: "+[]string{"Send", "RemoveNode(helper)", "RemovePipelineAndNodes(helper pipeline)", "RegisterNode", "SetSuccessThreshold", "getters", "RegisterPipeline", "RemovePipeline(helper)"}[re.nestKind])
 	var ids []el.NodeID
+	// the nodes of the pipeline under test may be registered with an explicit policy: what a registration
+	// policy says about overwriting has no bearing on how (and under which lock) the node is closed later
+	var nodeOpts []el.Option
+	switch tp.Choose(4, "node-policy") {
+	case 0:
+		nodeOpts = []el.Option{el.WithNodeRegistrationPolicy(el.DenyOverwrite)}
+		desc.Reentry = append(desc.Reentry, "nodes registered with DenyOverwrite")
+		simrt.Probe("reentry.nodes-deny-overwrite")
+	case 1:
+		nodeOpts = []el.Option{el.WithNodeRegistrationPolicy(el.AllowOverwrite)}
+	}
 	if useGated {
-		broker.RegisterNode("g", gf)
+		broker.RegisterNode("g", gf, nodeOpts...)
 		ids = append(ids, "g")
 		desc.Reentry = append(desc.Reentry, fmt.Sprintf("gated.Filter(broker=%v, expiration=%v)", gf.Broker != nil, gf.Expiration))
 	}
-	broker.RegisterNode("re", re)
+	broker.RegisterNode("re", re, nodeOpts...)
 	// the formatter may be the cloudevents formatter with a Signer that reports to the Broker: the
 	// report is an event of the same type, so it passes through the same formatter node
 	var ce *cloudevents.FormatterFilter
